@@ -619,3 +619,44 @@ func init() {
 	})
 	reg("(*net.IPNet).String", func(fr *frame, a []value) value { return "<ipnet>" })
 }
+
+// ---- printing of hashes / outpoints (never the subject; avoids
+// case-splitting on hex digits of symbolic bytes) ----
+
+func init() {
+	hashStr := func(fr *frame, a []value) value {
+		var arr array
+		switch x := a[0].(type) {
+		case array:
+			arr = x
+		case *value:
+			arr = (*ptrArg(x)).(array)
+		}
+		b, ok := concreteBytes([]value(arr))
+		if !ok {
+			return "<sym-hash>"
+		}
+		// chainhash prints byte-reversed hex
+		for l, r := 0, len(b)-1; l < r; l, r = l+1, r-1 {
+			b[l], b[r] = b[r], b[l]
+		}
+		return fmt.Sprintf("%x", b)
+	}
+	reg("(github.com/btcsuite/btcd/chainhash/v2.Hash).String", hashStr)
+	reg("(*github.com/btcsuite/btcd/chainhash/v2.Hash).String", hashStr)
+	reg("(github.com/btcsuite/btcd/wire/v2.OutPoint).String", func(fr *frame, a []value) value {
+		s := a[0].(structure)
+		return hashStr(fr, []value{s[0]}).(string) + ":" + toString(s[1])
+	})
+	reg("(*github.com/btcsuite/btcd/wire/v2.OutPoint).String", func(fr *frame, a []value) value {
+		s := (*ptrArg(a[0])).(structure)
+		return hashStr(fr, []value{s[0]}).(string) + ":" + toString(s[1])
+	})
+	reg("encoding/hex.EncodeToString", func(fr *frame, a []value) value {
+		b, ok := concreteBytes(a[0].([]value))
+		if !ok {
+			return "<sym-hex>"
+		}
+		return fmt.Sprintf("%x", b)
+	})
+}
